@@ -213,7 +213,20 @@ def run_case(c):
         idx = np.argwhere(np.ones(c["shape"], dtype=bool))
         pts = vg.indices_to_points(idx)
         back = vg.points_to_indices(pts)
-        return {"roundtrip": bool(np.array_equal(back, idx)), "volume": float(vg.volume), "filled": int(vg.filled_count),
+        # the index <-> point maps are inverse for every cell of the lattice, also outside the stored block
+        # (negative and beyond-the-end indices), and points in the layer around the block are not filled
+        sh = np.array(c["shape"])
+        wide = np.array(list(itertools.product(*[range(-3, int(n) + 3) for n in sh])))
+        wpts = vg.indices_to_points(wide)
+        wide_ok = bool(np.array_equal(vg.points_to_indices(wpts), wide))
+        jit = np.array([0.3, -0.3, 0.2]) * 1.0
+        wide_jit_ok = bool(np.array_equal(vg.points_to_indices(vg.indices_to_points(wide + jit)), wide))
+        inside = ((wide >= 0) & (wide < sh)).all(axis=1)
+        exp_filled = np.zeros(len(wide), dtype=bool)
+        exp_filled[inside] = d[tuple(wide[inside].T)]
+        outside_ok = bool(np.array_equal(np.asarray(vg.is_filled(wpts), dtype=bool), exp_filled))
+        return {"roundtrip": bool(np.array_equal(back, idx)) and wide_ok and wide_jit_ok, "outside_ok": outside_ok,
+                "volume": float(vg.volume), "filled": int(vg.filled_count),
                 "points0": pts[0].tolist(), "is_filled": _ints(vg.is_filled(pts)),
                 "sparse": sorted(map(tuple, np.asarray(vg.sparse_indices).tolist())),
                 "pts_centers": sorted(map(tuple, np.asarray(vg.points).tolist()))}
@@ -404,6 +417,8 @@ def oracle(c, o):
         vol = n * c["scale"][0] * c["scale"][1] * c["scale"][2]
         if not o["roundtrip"]:
             return {"kind": k, "fail": "points-indices-not-inverse"}
+        if not o.get("outside_ok", True):
+            return {"kind": k, "fail": "is_filled-wrong-around-the-grid"}
         if abs(o["volume"] - vol) > 1e-9 * max(1, vol) or o["filled"] != n:
             return {"kind": k, "fail": "volume"}
         if o["is_filled"] != c["bits"]:
